@@ -25,33 +25,49 @@ static void ra_checks(It b, It e, const std::vector<int>& v, std::string& flags,
   auto fail = [&](const char* what) { std::string f = std::string("!") + tag + what; if (flags.find(f) == std::string::npos) flags += f; };
   if (e - b != n || b - e != -n) fail("dist");
   for (std::ptrdiff_t i = 0; i < n; ++i) {
-    if (b[i] != v[i]) fail("[]");                                  // operator[] from begin()
-    if (b.elementAt((std::size_t) i) != v[i]) fail("elementAt");
-    if (*(b + i) != v[i] || *(e - (n - i)) != v[i]) fail("+n");
-    It c = b; c += i; if (*c != v[i] || c - b != i || e - c != n - i) fail("+=");
+    if ((int) b[i] != v[i]) fail("[]");                                  // operator[] from begin()
+    if ((int) b.elementAt((std::size_t) i) != v[i]) fail("elementAt");
+    if ((int) *(b + i) != v[i] || (int) *(e - (n - i)) != v[i]) fail("+n");
+    It c = b; c += i; if ((int) *c != v[i] || c - b != i || e - c != n - i) fail("+=");
     It d = e; d -= (n - i); if (!(d == c) || d != c) fail("-=");
     if ((i > 0) != (b < c) || (c < b) || !(c < e) || !(b <= c) || !(c >= b) || (i > 0) != (c > b)) fail("<");
   }
   const std::ptrdiff_t m = n / 2;                                  // operator[] relative to a middle position, both directions
   It mid = b + m;
-  for (std::ptrdiff_t i = 0; i < n; ++i) if (mid[i - m] != v[i]) fail("mid[]");
+  for (std::ptrdiff_t i = 0; i < n; ++i) if ((int) mid[i - m] != v[i]) fail("mid[]");
   std::ptrdiff_t k = n;                                            // reverse walk
-  for (It r = e; r != b; ) { --r; --k; if (k < 0 || *r != v[k]) { fail("--"); break; } }
+  for (It r = e; r != b; ) { --r; --k; if (k < 0 || (int) *r != v[k]) { fail("--"); break; } }
   if (k != 0 && n > 0) fail("--len");
   k = 0;                                                           // post-increment / post-decrement
-  for (It f = b; f != e; ++k) { It old = f++; if (k >= n || *old != v[k]) { fail("++post"); break; } }
-  if (n > 0) { It l = e; It old = l--; if (!(old == e) || *l != v[n - 1]) fail("--post"); }
+  for (It f = b; f != e; ++k) { It old = f++; if (k >= n || (int) *old != v[k]) { fail("++post"); break; } }
+  if (n > 0) { It l = e; It old = l--; if (!(old == e) || (int) *l != v[n - 1]) fail("--post"); }
 }
 
 template<class AL>
 static void run_t(const std::vector<std::string>& ops)
 {
-  AL al;
+  using T = typename AL::value_type;
+  std::unique_ptr<AL> alp(new AL);
   typename AL::iterator held; bool has = false;
   for (const auto& o : ops) {
+    AL& al = *alp;
     auto t = c11::split(o, ':');
     std::string flags;
-    if (t[0] == "pb") al.push_back((int) c11::num(t[1]));
+    if (t[0] == "pb") al.push_back(T((int) c11::num(t[1])));
+    else if (t[0] == "pba") al.push_back(al[(std::size_t) c11::num(t[1])]);          // ALIASING: the argument is an element of the list itself
+    else if (t[0] == "seta") al[(std::size_t) c11::num(t[1])] = al[(std::size_t) c11::num(t[2])];
+    else if (t[0] == "cpy") {                                                        // copy construction, source stays alive and must be unaffected
+      AL c(al); const AL& cc = c;
+      if (c.size() != al.size()) flags += "!cpysize";
+      for (std::size_t i = 0; i < c.size() && i < al.size(); ++i) if ((int) cc[i] != (int) al[i]) { flags += "!cpy"; break; }
+      if (c.size() > 0) c[0] = T(-1);
+      c.push_back(T(-2)); c.push_back(T(-3));
+      if (c.size() > 2) { typename AL::iterator ci = c.begin(); ci.eraseToHere(); c.purge(); }
+      has = false;
+    }
+    else if (t[0] == "cpyd") { std::unique_ptr<AL> n(new AL(al)); alp.swap(n); has = false; }   // continue on the copy, source destroyed
+    else if (t[0] == "cpya") { AL tmp; tmp.push_back(T(7)); tmp = al; AL& self = tmp; tmp = self;   // copy assignment incl. self-assignment
+                               std::unique_ptr<AL> n(new AL); *n = tmp; alp.swap(n); has = false; }
     else if (t[0] == "er") {
       long k = c11::num(t[1]);
       if (has && (held - al.begin()) <= k) has = false;          // documented: iterators at or before are invalidated
@@ -61,9 +77,11 @@ static void run_t(const std::vector<std::string>& ops)
     }
     else if (t[0] == "pg") { al.purge(); has = false; }
     else if (t[0] == "cl") { al.clear(); has = false; }
-    else if (t[0] == "set") al[(std::size_t) c11::num(t[1])] = (int) c11::num(t[2]);
+    else if (t[0] == "set") al[(std::size_t) c11::num(t[1])] = T((int) c11::num(t[2]));
     else if (t[0] == "hold") { held = al.begin(); held += c11::num(t[1]); has = true; }
     else { c11::step_done("UNKNOWN-OP"); continue; }
+    AL& al2 = *alp;
+#define al al2
 #ifdef C11_DEEP
     {
       std::string dp = std::to_string(al.start_) + "," + std::to_string(al.size_) + "," + std::to_string(al.capacity_) + ",";
@@ -75,14 +93,14 @@ static void run_t(const std::vector<std::string>& ops)
     const AL& cal = al;
     std::string obs = std::to_string(cal.size()) + "[";
     std::vector<int> viter;
-    for (typename AL::const_iterator i = cal.begin(), e = cal.end(); i != e; ++i) viter.push_back(*i);
+    for (typename AL::const_iterator i = cal.begin(), e = cal.end(); i != e; ++i) viter.push_back((int) *i);
     obs += c11::seq_str(viter.begin(), viter.end()) + "]";
     // cross-checks: operator[] and mutable iterators see the same elements; end()-begin() == size()
     if (viter.size() != cal.size()) flags += "!len";
     else {
-      for (std::size_t i = 0; i < cal.size(); ++i) if (cal[i] != viter[i] || al[i] != viter[i]) { flags += "!idx"; break; }
+      for (std::size_t i = 0; i < cal.size(); ++i) if ((int) cal[i] != viter[i] || (int) al[i] != viter[i]) { flags += "!idx"; break; }
       std::size_t j = 0; bool ok = true;
-      for (typename AL::iterator i = al.begin(); i != al.end(); ++i, ++j) if (j >= viter.size() || *i != viter[j]) { ok = false; break; }
+      for (typename AL::iterator i = al.begin(); i != al.end(); ++i, ++j) if (j >= viter.size() || (int) *i != viter[j]) { ok = false; break; }
       if (!ok || j != viter.size()) flags += "!mit";
     }
     if ((al.end() - al.begin()) != (std::ptrdiff_t) al.size()) flags += "!dist";
@@ -95,9 +113,12 @@ static void run_t(const std::vector<std::string>& ops)
       typename AL::const_iterator cb = cal.begin(); typename AL::iterator mb = al.begin();
       if (!(mb == cb) || (cal.size() > 0 && mb == typename AL::const_iterator(al.end()))) flags += "!mix==";
     }
-    obs += has ? std::to_string(*held) : std::string("-");
+    obs += has ? std::to_string((int) *held) : std::string("-");
     c11::step_done(obs + flags);
+#undef al
   }
+  alp.reset();
+  c11::leak_step();
 }
 
 template<int N> static void run(const std::vector<std::string>& ops) { run_t<Dune::ArrayList<int, N> >(ops); }
@@ -107,6 +128,17 @@ int main(int argc, char** argv)
   return c11::main_loop(argc, argv, "al", [](int n, const std::vector<std::string>& ops) {
     // the default template argument N (re-read from the source into Params_gen.v) is exercised through ArrayList<int> itself
     if (n == (int) Dune::ArrayList<int>::chunkSize_ && n > 16) { run_t<Dune::ArrayList<int> >(ops); return; }
+    // element-type family: N + 1000 = the same chunk size with the instance-tracking element type
+    if (n >= 1000) {
+      switch (n - 1000) {
+        case 0: run_t<Dune::ArrayList<c11::Tracked, -3> >(ops); return;     // N <= 0 acts as 1
+        case 1: run_t<Dune::ArrayList<c11::Tracked, 1> >(ops); return;
+        case 2: run_t<Dune::ArrayList<c11::Tracked, 2> >(ops); return;
+        case 3: run_t<Dune::ArrayList<c11::Tracked, 3> >(ops); return;
+        case 7: run_t<Dune::ArrayList<c11::Tracked, 7> >(ops); return;
+        default: c11::step_done("UNKNOWN-N"); return;
+      }
+    }
     switch (n) {
       case 0: run<0>(ops); break;  case 1: run<1>(ops); break;  case 2: run<2>(ops); break;
       case 3: run<3>(ops); break;  case 4: run<4>(ops); break;  case 5: run<5>(ops); break;
